@@ -51,6 +51,10 @@ type Options struct {
 	// not available in this mode: Crash is a graceful stop.
 	Wire    bool
 	WireDir string
+	// byte limits of the send queues of the transport and of the receive queues of the
+	// replicas (0 = none): messages over the limit are dropped by dragonboat itself
+	MaxSendQueueSize    uint64
+	MaxReceiveQueueSize uint64
 }
 
 // Shadow is the durable state of one replica as acknowledged by the log
@@ -438,11 +442,13 @@ func (h *Host) Crashed() bool {
 func (h *Host) nhConfig() config.NodeHostConfig {
 	c := h.c
 	cfg := config.NodeHostConfig{
-		NodeHostDir:    h.Dir,
-		RTTMillisecond: c.Opt.RTTMs,
-		RaftAddress:    h.Addr,
-		DeploymentID:   77,
-		NotifyCommit:   c.Opt.NotifyCommit,
+		NodeHostDir:         h.Dir,
+		RTTMillisecond:      c.Opt.RTTMs,
+		RaftAddress:         h.Addr,
+		DeploymentID:        77,
+		NotifyCommit:        c.Opt.NotifyCommit,
+		MaxSendQueueSize:    c.Opt.MaxSendQueueSize,
+		MaxReceiveQueueSize: c.Opt.MaxReceiveQueueSize,
 		Expert: config.ExpertConfig{
 			FS:               h.Disk,
 			LogDBFactory:     &logdbFactory{h: h},
